@@ -23,15 +23,15 @@ package cmd
 //@   requires tr != nil && n >= 0
 //@   allocates []string, []*tree.Node
 //@   assigns ghost(rand_count), ghost(rand_last), ghost(rand_range)
-//@   call math/rand.Intn [draw_among_all_elements_seen_so_far] a0 == i + 1
+//@   call math/rand.Intn [draw_among_all_elements_seen_so_far] a0 == rangeindex + 2
 //@   loop 1
 //@     assigns elems(sampled), ghost(rand_count), ghost(rand_last), ghost(rand_range)
-//@     invariant [count] total == i && i >= 0
+//@     invariant [count] total == rangeindex + 1 && rangeindex >= -1
 //@     invariant [reservoir_is_the_result_slice] sampled == lold(sampled) && len(sampled) == n
-//@     step [fill_phase] i < n ==> sampled[i] == tip.name && (forall k int :: 0 <= k && k < n && k != i ==> sampled[k] == atHead(sampled[k])) && ghost(rand_count) == atHead(ghost(rand_count))
-//@     step [replace_phase_one_draw] i >= n ==> ghost(rand_count) == atHead(ghost(rand_count)) + 1 && ghost(rand_range) == i + 1
-//@     step [replace_phase_hit] i >= n && ghost(rand_last) < n ==> sampled[ghost(rand_last)] == tip.name && (forall k int :: 0 <= k && k < n && k != ghost(rand_last) ==> sampled[k] == atHead(sampled[k]))
-//@     step [replace_phase_miss] i >= n && ghost(rand_last) >= n ==> (forall k int :: 0 <= k && k < n ==> sampled[k] == atHead(sampled[k]))
+//@     step [fill_phase] rangeindex + 1 < n ==> sampled[rangeindex + 1] == tip.name && (forall k int :: 0 <= k && k < n && k != rangeindex + 1 ==> sampled[k] == atHead(sampled[k])) && ghost(rand_count) == atHead(ghost(rand_count))
+//@     step [replace_phase_one_draw] rangeindex + 1 >= n ==> ghost(rand_count) == atHead(ghost(rand_count)) + 1 && ghost(rand_range) == rangeindex + 2
+//@     step [replace_phase_hit] rangeindex + 1 >= n && ghost(rand_last) < n ==> sampled[ghost(rand_last)] == tip.name && (forall k int :: 0 <= k && k < n && k != ghost(rand_last) ==> sampled[k] == atHead(sampled[k]))
+//@     step [replace_phase_miss] rangeindex + 1 >= n && ghost(rand_last) >= n ==> (forall k int :: 0 <= k && k < n ==> sampled[k] == atHead(sampled[k]))
 //@   ensures [size] len(result) <= n
 
 // ---------------------------------------------------------------------------
